@@ -38,7 +38,11 @@ fn gen_ec(rng: &mut Rng, depth: usize, idx: &mut usize, name: String) -> EC {
         let nm = format!("{}{i}", rng.pick(&["sub", "su", "cmd", "s"]));
         let mut s = gen_ec(rng, depth + 1, idx, nm);
         if rng.chance(1, 4) { s.valiases.push(format!("subalias{i}")); }
-        if rng.chance(1, 4) { s.haliases.push(format!("suhidden{i}")); }
+        if rng.chance(1, 3) {
+            // hidden aliases that sort before, after, or as a prefix of the visible name
+            let h = match rng.below(4) { 0 => format!("aa{i}"), 1 => format!("zz{i}"), 2 => s.name[..1].to_string() + &format!("{i}"), _ => format!("suhidden{i}") };
+            s.haliases.push(h);
+        }
         s.hide = rng.chance(1, 6);
         s }).collect();
     EC { name, valiases: vec![], haliases: vec![], hide: false, args, subs }
